@@ -27,4 +27,4 @@ PY
 cp /repo/go.mod $D/go.mod; cp /repo/go.sum $D/go.sum
 printf '\nrequire dsim v0.0.0\nreplace dsim => /verif/dsim\nrequire github.com/anishathalye/porcupine v1.3.0\n' >> $D/go.mod
 cmd=$1; shift; pkg=$1; shift
-cd /repo && go $cmd -vet=off -modfile=$D/go.mod -overlay=$D/overlay.json $pkg "$@"
+VET=-vet=off; [ "$cmd" = build ] && VET=; cd /repo && go $cmd $VET -modfile=$D/go.mod -overlay=$D/overlay.json $pkg "$@"
